@@ -67,8 +67,8 @@ type pfate struct {
 }
 
 type xfate struct {
-	kind   int // 0 ok, 1 error, 2 forget everything on this host first, 3 UNPREPARED carrying another id
-	delay  time.Duration
+	kind  int // 0 ok, 1 error, 2 forget everything on this host first, 3 UNPREPARED carrying another id
+	delay time.Duration
 }
 
 type stmtDef struct {
@@ -99,8 +99,11 @@ type world struct {
 	keyLabel map[string]string // cache key string -> "h<i>.s<j>"
 	capacity int
 	maxLen   int32
-	calls    sync.Map // call number -> *callSpec
-	pending  int32    // frames received and not answered yet
+	calls    sync.Map     // call number -> *callSpec
+	pending  int32        // frames received and not answered yet
+	frames   map[int]int  // EXECUTE/BATCH frames per call (history lock)
+	cut      map[int]bool // calls declared not terminating
+	nforget  int          // scripted "forget" / foreign-id answers so far
 	// hooks for directed scenarios: called with the history lock held, may override the fate
 	onPrepare func(n *nodeState, stmt int, serial int) (pfate, chan struct{})
 	onExec    func(n *nodeState, call int, known bool) (xfate, chan struct{}, bool)
@@ -141,9 +144,10 @@ func after(d time.Duration, gate chan struct{}, f func()) {
 	}
 	go func() {
 		if gate != nil {
+			// gates only shape the schedule: if the awaited event does not happen the answer goes out anyway
 			select {
 			case <-gate:
-			case <-time.After(watchdog + 10*time.Second):
+			case <-time.After(500 * time.Millisecond):
 			}
 		}
 		if d > 0 {
@@ -288,6 +292,20 @@ func (w *world) handle(n *nodeState, req *memcluster.Request) {
 		var f xfate
 		var gate chan struct{}
 		handled := false
+		// a correct driver re-prepares after an UNPREPARED answer, so a call's frames are bounded by the
+		// PREPAREs and the scripted losses so far; beyond that the call is declared not terminating (event
+		// L) and is answered with an error from then on so that the run ends
+		w.frames[call]++
+		if !w.cut[call] && (w.frames[call] > 20+3*(w.h.nprep+w.nforget) || w.frames[call] > 150) {
+			w.cut[call] = true
+			w.h.evs = append(w.h.evs, hev{text: fmt.Sprintf("L:%d", call)})
+		}
+		if w.cut[call] {
+			w.h.evs = append(w.h.evs, hev{text: fmt.Sprintf("X:%d:%s:err", call, hexIDs(ids))})
+			w.h.mu.Unlock()
+			sc.Reply(req.Stream, memcluster.OpError, memcluster.ErrorBody(memcluster.ErrInvalid, "xe", nil))
+			return
+		}
 		if w.onExec != nil {
 			f, gate, handled = w.onExec(n, call, unknown == nil)
 		}
@@ -305,10 +323,12 @@ func (w *world) handle(n *nodeState, req *memcluster.Request) {
 			ans = "err"
 			op, body = memcluster.OpError, memcluster.ErrorBody(memcluster.ErrInvalid, "xe", nil)
 		case f.kind == 2:
+			w.nforget++
 			n.registered = map[string]int{}
 			ans = "un/" + vh.Hex(ids[0])
 			op, body = memcluster.OpError, memcluster.ErrorBody(memcluster.ErrUnprepared, "unprepared", memcluster.UnpreparedExtra(ids[0]))
 		case f.kind == 3:
+			w.nforget++
 			other := []byte("other-id")
 			ans = "un/" + vh.Hex(other)
 			op, body = memcluster.OpError, memcluster.ErrorBody(memcluster.ErrUnprepared, "unprepared", memcluster.UnpreparedExtra(other))
@@ -384,7 +404,7 @@ type worldCfg struct {
 
 func newWorld(r *vh.Rng, c worldCfg) (*world, error) {
 	w := &world{r: r, h: &hist{}, stmts: c.stmts, stmtIdx: map[string]int{}, byIP: map[string]*nodeState{},
-		stableID: c.stableID, ks: c.ks, keyLabel: map[string]string{}, capacity: c.capacity}
+		stableID: c.stableID, ks: c.ks, keyLabel: map[string]string{}, capacity: c.capacity, frames: map[int]int{}, cut: map[int]bool{}}
 	for i, s := range c.stmts {
 		w.stmtIdx[s.text] = i
 	}
@@ -997,18 +1017,18 @@ func sessionTier(r *vh.Rng, out *vh.Out, outdir string, mult int) {
 		maxHangs = 2
 	}
 	steps := []func(){}
-	for i := 0; i < 3*mult; i++ {
+	for i := 0; i < 6*mult; i++ {
 		steps = append(steps, func() { rn.lostStatement(2+rn.r.Intn(3), true, false) })
 		steps = append(steps, func() { rn.lostStatement(2+rn.r.Intn(3), false, rn.r.Bool()) })
 		steps = append(steps, func() { rn.lostStatement(2, true, true) })
 	}
-	for i := 0; i < 3*mult; i++ {
-		steps = append(steps, func() { rn.retryUnderContention(40) })
+	for i := 0; i < 6*mult; i++ {
+		steps = append(steps, func() { rn.retryUnderContention(60) })
 	}
-	for i := 0; i < 25*mult; i++ {
+	for i := 0; i < 150*mult; i++ {
 		steps = append(steps, rn.random)
 	}
-	for i := 0; i < 8*mult; i++ {
+	for i := 0; i < 30*mult; i++ {
 		steps = append(steps, rn.evictionInFlight)
 		steps = append(steps, rn.sameStatementBurst)
 	}
